@@ -30,6 +30,20 @@ Theorem C48_git_reads_ours : forall c,
 Proof. exact git_reads_ours. Qed.
 Print Assumptions C48_git_reads_ours.
 
+(* the value / subsection part of the guard is needed: with perfectly valid
+   section and key names the encoder still emits text git rejects or reads
+   differently (LF in a subsection name; a NUL byte, on which S is undefined
+   and the git binary truncates the value) *)
+Theorem C48_git_reads_ours_unguarded_refuted :
+  (exists c, git_config_parse (encode c) = inl GErrSyntax) /\
+  (exists c, git_config_parse (encode c) = inl GErrNul).
+Proof.
+  split.
+  - exists [([97], [], [([97; 10; 98], [([107], [118])])])]. vm_compute. reflexivity.
+  - exists [([97], [([107], [97; 0; 98])], [])]. vm_compute. reflexivity.
+Qed.
+Print Assumptions C48_git_reads_ours_unguarded_refuted.
+
 (* non-vacuity: a hostile configuration satisfies the guard, and git reads it as written *)
 Example C48_git_reads_ours_nonvacuous :
   let c : cfg :=
